@@ -401,6 +401,77 @@ def run(ctx):
                               f"later calculation that reuses the dictionary silently inherits it")
     if n_store < 20:
         raise AnalysisError(f"only {n_store} settings stores found")
+    # R3 (b): a method that runs per calculation may not *overwrite* a key of the caller's (possibly nested) settings dictionary: the first calculation reads the caller's value
+    # before the overwrite, every later calculation that is handed the same dictionary (or a shallow copy of it) starts from the overwritten one.  Accepted: default fills
+    # (setdefault / d[k] = d.get(k, default)), private marker keys (_name), stores into a dictionary the method has rebound to a fresh copy first, constructors normalising
+    # the value of the same key, and the inventoried idempotent stores below.
+    ACCEPTED_OVERWRITES = {
+        ("Molecular_Dynamics_Basic._sync_excited_state_output_flags", "save_tdm"): "monotone flag derived from the output configuration: only switches extra output on",
+        ("Molecular_Dynamics_Basic._sync_excited_state_output_flags", "compute_transition_properties"): "monotone flag derived from the output configuration",
+        ("NonadiabaticDynamicsBase._setup_states", "n_states"): "idempotent: recomputed from the private marker _nad_nstates that keeps the caller's value",
+        ("NonadiabaticDynamicsBase.run_from_checkpoint", "n_states"): "the dictionary was read from the checkpoint file in this call (private)",
+        ("NonadiabaticDynamicsBase.run_from_checkpoint", "excited_states"): "the dictionary was read from the checkpoint file in this call (private)",
+        ("Force.forward", "analytical_gradient"): "fixed point of the test that reads the same key (excited state with scf_backward 0 -> [True]): first and later calls take the same branch",
+    }
+    n_over = 0
+    for m in list(repo.modules("seqm")):
+        for q, f in m.functions.items():
+            if q.endswith(".__init__") or q == "__init__":
+                continue
+            # local aliases of attribute chains (energy = self.esdriver.conservative_force.energy)
+            alias = {}
+            for st in ast.walk(f):
+                if isinstance(st, ast.Assign) and len(st.targets) == 1 and isinstance(st.targets[0], ast.Name) and isinstance(st.value, (ast.Attribute, ast.Name)):
+                    alias[st.targets[0].id] = norm(st.value)
+
+            def full(e):
+                t = norm(e)
+                head = t.split(".", 1)[0].split("[", 1)[0]
+                for _ in range(4):
+                    if head in alias and alias[head] != head:
+                        t = alias[head] + t[len(head):]
+                        head = t.split(".", 1)[0].split("[", 1)[0]
+                return t
+            fresh = []      # (text of the rebound dictionary, line)
+            for st in ast.walk(f):
+                if isinstance(st, ast.Assign) and len(st.targets) == 1 and isinstance(st.value, ast.Call):
+                    v = st.value
+                    cn = (call_name(v) or "")
+                    is_copy = (cn == "dict" and v.args) or callee_attr(v) in ("copy",) or cn in ("copy.deepcopy", "copy.copy", "deepcopy")
+                    if is_copy or isinstance(st.value, ast.Dict):
+                        fresh.append((full(st.targets[0]), st.lineno))
+                elif isinstance(st, ast.Assign) and len(st.targets) == 1 and isinstance(st.value, ast.Dict):
+                    fresh.append((full(st.targets[0]), st.lineno))
+            for st in ast.walk(f):
+                if not isinstance(st, ast.Assign):
+                    continue
+                for t in st.targets:
+                    if not (isinstance(t, ast.Subscript) and isinstance(t.slice, ast.Constant) and isinstance(t.slice.value, str)):
+                        continue
+                    base_txt = full(t.value)
+                    if not SETTINGS_BASE.search(base_txt) or "molecule.parameters" in base_txt or ".parameters" in base_txt.replace("seqm_parameters", "") or "parameters[" in base_txt.replace("seqm_parameters[", ""):
+                        continue
+                    if base_txt in ("params", "learned_params", "p") and m.rel != "seqm/NonadiabaticDynamics.py":
+                        continue
+                    key = t.slice.value
+                    if key.startswith("_"):
+                        continue
+                    # default fill of the same key
+                    v = st.value
+                    if any(callee_attr(c) == "get" and c.args and isinstance(c.args[0], ast.Constant) and c.args[0].value == key and full(c.func.value) == base_txt for c in calls_in(v)):
+                        continue
+                    if any(isinstance(a, ast.Compare) and isinstance(a.ops[0], ast.NotIn) and isinstance(a.left, ast.Constant) and a.left.value == key and pol
+                           for a, pol, _ in controlling(m, st)):
+                        continue
+                    n_over += 1
+                    private = any(base_txt == ft and ln < st.lineno for ft, ln in fresh)
+                    reason = ACCEPTED_OVERWRITES.get((q, key))
+                    ctx.check(private or reason is not None, "R3", m, st, q, f"overwrite of settings key '{key}' in {q}",
+                              f"{q}: `{short(st, 70)}` " + ("writes into a dictionary this method copied first (private)" if private else f"is an inventoried idempotent settings store ({reason})"),
+                              f"{q}: `{short(st, 90)}` overwrites the key '{key}' of the caller's settings dictionary while a calculation runs: the first calculation reads the caller's value before "
+                              f"this store, every later calculation that is given the same dictionary (or a shallow copy) starts from the overwritten value -- results depend on what ran before")
+    if n_over < 5:
+        raise AnalysisError(f"only {n_over} run-phase settings overwrites examined")
 
     # ------------------------------------------------------------------ R4
     bs = repo.mod("seqm/basics.py")
